@@ -1,8 +1,26 @@
 import StepModel.P21.Writer
+import StepModel.P21.ReaderLemmas
 import StepModel.Generated.P21RWGen
-/-! # C01 — exchange files survive read-then-write: property theorems (see notes/C01.md) -/
+/-! # C01 — exchange files survive read-then-write: property theorems
+
+What is proved here, for all inputs of the stated shape (no size bounds):
+
+* writer: an aggregate of any element type and any length is written as its elements' own texts separated by commas
+  (`C01_aggregate_written_elementwise`), unconditionally for the source as it is now
+  (`C01_aggregate_written_elementwise_in_source`, through the regenerated switch `Generated.rwCfg.stringNodeAppends`);
+  the unrepaired writer's counterexample is `C01_string_list_witness`;
+* layout: `ReadTokenSeparator` consumes *every* sequence of blanks and complete comments in front of a token, at any
+  position of the file, and leaves a good stream at the token (`C01_token_separators_skipped`); an entity without
+  attributes is read without error in every layout (`C01_read_empty_record`);
+* the two comment defects and their repair, on the minimal inputs, as evaluated by the model
+  (`C01_comment_after_value_*`, `C01_comment_in_aggregate_*`).
+
+What is *not* proved (tied by correspondence on generated files only, see notes/C01.md): `read (render p ℓ) = p` for
+populated parameter lists (needs the per-literal lemmas of property C09 generalised from a fresh stream to a stream
+in mid-file), selects, complex instances, the header, and the fixed-point property of write∘read.
+-/
 namespace StepModel.P21.C01
-open StepModel StepModel.P21
+open StepModel StepModel.P21 StepModel.P21.RLemmas StepModel.P21.Lemmas
 
 /-- the text one aggregate element stands for, independent of any scratch string -/
 def nodeText {F} (ops : FloatOps F) (cfg : RWCfg) (d : Dict) (ty : ElemTy) (e : Elem F) : List Byte :=
@@ -43,5 +61,80 @@ theorem C01_aggregate_written_elementwise {F} (ops : FloatOps F) (cfg : RWCfg) (
       rw [nodeWrite_assign ops cfg d ty sc e h]
       congr 1
       exact ih _
+
+/-- the source as it is now: `SDAI_String::STEPwrite( std::string & )` assigns (regenerated on every run; this is the
+    statement that fails to check on a tree whose string node writer appends) -/
+theorem C01_string_node_writer_assigns : Generated.rwCfg.stringNodeAppends = false := by decide
+
+/-- **aggregate writer, current source**: every aggregate, strings included -/
+theorem C01_aggregate_written_elementwise_in_source {F} (ops : FloatOps F) (d : Dict) (ty : ElemTy) (es : List (Elem F)) :
+    writeAggr ops Generated.rwCfg d ty es =
+      [40] ++ commaSep (es.map (nodeText ops Generated.rwCfg d ty)) ++ [41] :=
+  C01_aggregate_written_elementwise ops Generated.rwCfg d ty es (Or.inl C01_string_node_writer_assigns)
+
+def emptyDict : Dict := { entities := [], selects := [], complexSets := [] }
+def q (s : String) : List Byte := stringToBytes s
+
+/-- the unrepaired writer (string node appends to the shared scratch string): `('x','y')` is written `('x','x''y')` -/
+theorem C01_string_list_witness :
+    writeAggr dblOps { Generated.rwCfg with stringNodeAppends := true } emptyDict .string
+        [.atom (.str (q "'x'")), .atom (.str (q "'y'"))] = q "('x','x''y')" := by decide
+
+/-- **every layout is skipped**: blanks and complete comments, in any number and order, in front of any token -/
+theorem C01_token_separators_skipped (seps : List Byte) (hs : Seps seps) (l : List Byte) (c : Byte) (rest : List Byte)
+    (sk : Bool) (hc : isSpace c = false) (h47 : c ≠ 47) :
+    readTokenSeparator (G l (seps ++ c :: rest) sk) = G (seps.reverse ++ l) (c :: rest) sk :=
+  readTokenSeparator_seps seps hs l c rest sk hc h47
+
+/-- the hypothesis is satisfiable: ` /* c */ /**/\n` is a separator sequence -/
+example : Seps (q " /* c */ /**/\n") :=
+  Seps.comment (q " ") (q " c ") (q " /**/\n") (by decide) (by decide)
+    (Seps.comment (q " ") [] (q "\n") (by decide) (by decide) (Seps.blanks (q "\n") (by decide)))
+
+/-- **an entity without attributes, every layout**: `( seps )` is read without error and the stream rests right after
+    the closing parenthesis -/
+theorem C01_read_empty_record {F} (env : Env F) (strict : Bool) (seps : List Byte) (hs : Seps seps)
+    (l rest : List Byte) (sk : Bool) :
+    instSTEPread env strict [] (G l (40 :: (seps ++ 41 :: rest)) sk) =
+      .ok ⟨.null, [], G (41 :: (seps.reverse ++ 40 :: l)) rest sk⟩ := by
+  unfold instSTEPread
+  rw [show (G l (40 :: (seps ++ 41 :: rest)) sk).ws = G l (40 :: (seps ++ 41 :: rest)) sk from ws_good0 l 40 _ sk (by decide)]
+  simp only [bind, Except.bind, pure, Except.pure]
+  rw [shiftInto_good 0 l 40 _ sk (by decide)]
+  simp only [bne_self_eq_false, Bool.false_eq_true, if_false, List.isEmpty_nil, if_true]
+  rw [readTokenSeparator_seps seps hs (40 :: l) 41 rest sk (by decide) (by decide)]
+  rw [shiftInto_good 40 _ 41 rest sk (by decide)]
+  simp
+
+/-! ### the comment defects and their repair on the minimal inputs (model level; the check replays them on the code) -/
+
+def exDict : Dict :=
+  { entities := [{ name := "A", attrs := [{ name := "i", ty := .one .integer, optional := false },
+                                           { name := "l", ty := .aggr .integer, optional := false }], ancestors := ["A"] }],
+    selects := [], complexSets := [] }
+
+/-- what the model reads and writes back for one data section: (file severity, text written) -/
+def roundTrip (lex : LexCfg) (cfg : RWCfg) (data : String) : Option (Sev × List Byte) :=
+  match readDataSection dblOps lex cfg exDict false false (q data) with
+  | .ok r => some (r.sev, r.mgr.insts.flatMap (writeInst dblOps cfg exDict))
+  | .error _ => none
+
+def lexOld : LexCfg := { Generated.rwLexCfg with criSkipsComments := false }
+def lexNew : LexCfg := { Generated.rwLexCfg with criSkipsComments := true }
+def cfgOld : RWCfg := { Generated.rwCfg with aggrSkipsComments := false }
+def cfgNew : RWCfg := { Generated.rwCfg with aggrSkipsComments := true }
+
+/-- unrepaired: a comment between a value and its delimiter flags the file -/
+theorem C01_comment_after_value_witness :
+    roundTrip lexOld cfgOld "#1=A(5 /*f*/,(1));ENDSEC;END-ISO-10303-21;" = some (.warning, q "#1=A(5,(1));\n") := by decide
+/-- repaired `CheckRemainingInput`: the same file is read cleanly -/
+theorem C01_comment_after_value_repaired :
+    roundTrip lexNew cfgNew "#1=A(5 /*f*/,(1));ENDSEC;END-ISO-10303-21;" = some (.null, q "#1=A(5,(1));\n") := by decide
+/-- unrepaired: a comment inside an aggregate loses the element after it -/
+theorem C01_comment_in_aggregate_witness :
+    roundTrip lexOld cfgOld "#1=A(5,(1, /*g*/ 2));ENDSEC;END-ISO-10303-21;" = some (.warning, q "#1=A(5,(1,));\n") := by decide
+/-- repaired element loop: both elements are read -/
+theorem C01_comment_in_aggregate_repaired :
+    roundTrip lexNew cfgNew "#1=A(5,(1, /*g*/ 2));ENDSEC;END-ISO-10303-21;" = some (.null, q "#1=A(5,(1,2));\n") := by decide
 
 end StepModel.P21.C01
